@@ -240,6 +240,9 @@ class PeeweeStorage(AbstractStorage):
 
     def insert_one(self, bucket_id: str, event: Event) -> Event:
         e = EventModel.from_event(self.bucket_keys[bucket_id], event)
+        if e.id is not None and self._get_event(bucket_id, e.id) is None:
+            # The id does not belong to an event of this bucket, store as a new event
+            e.id = None
         e.save()
         event.id = e.id
         return event
